@@ -7,6 +7,7 @@ which directions are feasible and queues the alternatives.  Scalars (i64, u32,
 usize, f64, char, bool) are z3 terms; shapes (vector lengths, enum tags of
 template nodes) are decided by forking with solver-checked feasibility.
 """
+import gc
 import itertools
 import time
 import z3
@@ -321,10 +322,34 @@ class Stats:
         self.queries_unsat = 0
         self.queries_sat = 0
         self.queries_unknown = 0
-        self.smt_dumps = []  # (name, smt2 text, z3 verdict)
+        self.smt_dumps = []  # (name, assertions, z3 verdict): first 8 sat + a reservoir sample of 60 others
+        self._n_sat_kept = 0
+        self._n_other_seen = 0
+        self._rng = __import__("random").Random(0)
+
+    def keep_dump(self, d):
+        if d[2] == "sat":
+            if self._n_sat_kept < 8:
+                self._n_sat_kept += 1
+                self.smt_dumps.append(d)
+            return
+        self._n_other_seen += 1
+        if self._n_other_seen <= 60:
+            self.smt_dumps.append(d)
+            return
+        j = self._rng.randrange(self._n_other_seen)
+        if j < 60:
+            idx = [i for i, x in enumerate(self.smt_dumps) if x[2] != "sat"]
+            self.smt_dumps[idx[j]] = d
 
 
 STATS = Stats()
+
+
+RLIMIT_FEASIBILITY = 40000000
+RLIMIT_OBLIGATION = 200000000
+GC_EVERY = 1
+_gc_state = [0]
 
 
 class Ctx:
@@ -336,7 +361,11 @@ class Ctx:
         self.worklist = worklist
         self.pc = list(base_pc)
         self.solver = z3.Solver()
-        self.solver.set("timeout", timeout_ms)
+        # feasibility checks are many and cheap: a wall-clock timeout makes z3 start a timer thread per check (stack
+        # mmap/munmap each time, costly in forked workers); a deterministic resource limit needs none.  A check that
+        # exhausts it is retried once under the wall-clock cap.
+        self.timeout_ms = timeout_ms
+        self.solver.set("rlimit", RLIMIT_FEASIBILITY)
         for c in base_pc:
             self.solver.add(c)
         self.tainted = False
@@ -350,6 +379,10 @@ class Ctx:
     def _check(self, *assumps):
         t = time.time()
         r = self.solver.check(*assumps)
+        if r == z3.unknown:
+            self.solver.set("rlimit", 0)
+            self.solver.set("timeout", self.timeout_ms)
+            r = self.solver.check(*assumps)
         STATS.solver_calls += 1
         STATS.solver_s += time.time() - t
         return r
@@ -489,6 +522,12 @@ def explore(run, max_paths=20000, timeout_ms=20000, base_pc=(), initial=None):
     initial: decision prefixes to start from (only their extensions are explored)."""
     worklist = [list(d) for d in initial] if initial is not None else [[]]
     results = []
+    # results of earlier explorations that took part in reference cycles were promoted to the oldest generation while
+    # they were alive; now that the caller has dropped them only a full collection frees them (and their z3 terms).
+    # Done here, where little is live, once enough paths have accumulated.
+    if GC_EVERY and _gc_state[0] >= 300:
+        _gc_state[0] = 0
+        gc.collect()
     while worklist:
         if len(results) >= max_paths:
             raise UnwindExceeded(f"more than {max_paths} paths")
@@ -504,6 +543,12 @@ def explore(run, max_paths=20000, timeout_ms=20000, base_pc=(), initial=None):
         except UnwindExceeded as u:
             results.append(PathResult("unwind", u, ctx))
         STATS.paths += 1
+        _gc_state[0] += 1
+        if GC_EVERY and STATS.paths % GC_EVERY == 0:
+            # a path's interpreter, context and z3 solver form reference cycles: reclaim them while they are young
+            # (the automatic collector is throttled, see vlib/check.py) instead of letting solvers pile up
+            ctx = None
+            gc.collect(1)
     return results
 
 
@@ -520,7 +565,9 @@ class Decider:
         """Returns ('unsat', None) if pc => claim holds, ('sat', model) with a
         counterexample, or ('unknown', None)."""
         s = z3.Solver()
-        s.set("timeout", self.timeout_ms)
+        # resource limit first (no timer thread: a second thread makes every munmap of the interpreter's frame-stack
+        # chunks a cross-CPU TLB flush); the wall-clock cap only for a query that exhausts it
+        s.set("rlimit", RLIMIT_OBLIGATION)
         for c in pc:
             s.add(c)
         if claim is True:
@@ -532,6 +579,10 @@ class Decider:
         s.add(neg)
         t = time.time()
         r = s.check()
+        if r == z3.unknown:
+            s.set("rlimit", 0)
+            s.set("timeout", self.timeout_ms)
+            r = s.check()
         dt = time.time() - t
         STATS.solver_calls += 1
         STATS.solver_s += dt
@@ -543,7 +594,8 @@ class Decider:
         else:
             STATS.queries_unknown += 1
         # keep the assertions; the SMT-LIB2 text is rendered lazily for the queries cvc5 re-decides
-        STATS.smt_dumps.append((name, list(s.assertions()), verdict))
+        # (a bounded sample: retaining every query's assertions is the largest memory consumer of a long run)
+        STATS.keep_dump((name, list(s.assertions()), verdict))
         self.log.append({"name": name, "verdict": verdict, "solver_s": round(dt, 4)})
         return verdict, (s.model() if verdict == "sat" else None)
 
